@@ -12,6 +12,7 @@ import (
 	"testing"
 
 	"github.com/EdgeCast/vflow/ipfix"
+	netflow5 "github.com/EdgeCast/vflow/netflow/v5"
 	"gopkg.in/yaml.v2"
 	"pgregory.net/rapid"
 	"verif/harness/wire"
@@ -249,8 +250,223 @@ func c20Differential(c *c20Case, builtin, loaded map[ipfix.ElementKey]ipfix.Info
 	return nil
 }
 
+// ---------------------------------------------------------------- phase 3: the model stays what it was, whatever is decoded
+
+const c20HistoryRule = " | phase 3 (histories, TestC20History): 1..8 operations drawn from {decode a generated NetFlow v9 scenario, decode a generated IPFIX scenario, decode a generated sFlow / NetFlow v5 datagram, " +
+	"load scripts/ipfix.elements through the real loader, run the loader on a directory without the file}; the scenarios are generated from and their expected records computed with the element types of golden/ipfix_registry.json; " +
+	"after every operation the live information model must equal the registry snapshot entry by entry (key set, name, type, FieldID) and every scenario must decode to the golden-typed reference; a history case is non-trivial when it has >= 2 different kinds of operation"
+
+type c20Op struct {
+	Op  string         `json:"op"` // nf9 | ipfix | sflow | nf5 | load-file | load-absent
+	Sc  *wire.Scenario `json:"sc,omitempty"`
+	Raw wire.Hex       `json:"raw,omitempty"`
+}
+
+type c20History struct {
+	Phase int     `json:"phase"`
+	Ops   []c20Op `json:"ops"`
+}
+
+type c20Rig struct {
+	gold     map[ipfix.ElementKey]goldenEntry
+	typeOf   map[string]int
+	fileDir  string
+	emptyDir string
+	cleanup  func()
+}
+
+func loadGolden() (map[ipfix.ElementKey]goldenEntry, error) {
+	var golden []goldenEntry
+	goldenPath := filepath.Join("..", "..", "golden", "ipfix_registry.json")
+	if g := os.Getenv("VERIF_GOLDEN"); g != "" {
+		goldenPath = g
+	}
+	gb, err := os.ReadFile(goldenPath)
+	if err != nil {
+		return nil, err
+	}
+	if err := json.Unmarshal(gb, &golden); err != nil {
+		return nil, err
+	}
+	gold := map[ipfix.ElementKey]goldenEntry{}
+	for _, g := range golden {
+		gold[ipfix.ElementKey{EnterpriseNo: g.PEN, ElementID: g.ID}] = g
+	}
+	return gold, nil
+}
+
+func newC20Rig() (*c20Rig, error) {
+	gold, err := loadGolden()
+	if err != nil {
+		return nil, fmt.Errorf("harness: golden registry: %v", err)
+	}
+	r := &c20Rig{gold: gold, typeOf: map[string]int{}}
+	for i := 0; wire.TypeName(i) != fmt.Sprintf("type%d", i); i++ {
+		r.typeOf[wire.TypeName(i)] = i
+	}
+	work := os.Getenv("VERIF_WORK")
+	if work == "" {
+		work = os.TempDir()
+	}
+	dir, err := os.MkdirTemp(work, "c20hist")
+	if err != nil {
+		return nil, fmt.Errorf("harness: %v", err)
+	}
+	r.cleanup = func() { os.RemoveAll(dir) }
+	r.fileDir, r.emptyDir = filepath.Join(dir, "with"), filepath.Join(dir, "without")
+	os.MkdirAll(r.fileDir, 0o755)
+	os.MkdirAll(r.emptyDir, 0o755)
+	raw, err := os.ReadFile(filepath.Join(repoDir(), "scripts", "ipfix.elements"))
+	if err != nil {
+		r.cleanup()
+		return nil, fmt.Errorf("harness: %v", err)
+	}
+	if err := os.WriteFile(filepath.Join(r.fileDir, "ipfix.elements"), raw, 0o644); err != nil {
+		r.cleanup()
+		return nil, fmt.Errorf("harness: %v", err)
+	}
+	return r, nil
+}
+
+// goldenElems: the registry snapshot as generator input (list types decode as raw octets).
+func (r *c20Rig) goldenElems() []wire.Elem {
+	var out []wire.Elem
+	for k, g := range r.gold {
+		out = append(out, wire.Elem{PEN: k.EnterpriseNo, ID: k.ElementID, Type: r.typeOf[g.Type]})
+	}
+	sort.Slice(out, func(i, j int) bool {
+		if out[i].PEN != out[j].PEN {
+			return out[i].PEN < out[j].PEN
+		}
+		return out[i].ID < out[j].ID
+	})
+	return out
+}
+
+// modelIntact compares the live information model with the registry snapshot.
+func (r *c20Rig) modelIntact() error {
+	if len(ipfix.InfoModel) != len(r.gold) {
+		return fmt.Errorf("the live information model has %d entries, the registry snapshot %d", len(ipfix.InfoModel), len(r.gold))
+	}
+	var bad []string
+	for k, g := range r.gold {
+		e, ok := ipfix.InfoModel[k]
+		switch {
+		case !ok:
+			bad = append(bad, fmt.Sprintf("element (pen %d, id %d) %s is missing", k.EnterpriseNo, k.ElementID, g.Name))
+		case e.FieldID != k.ElementID || e.Name != g.Name:
+			bad = append(bad, fmt.Sprintf("element %d is {FieldID %d, %q}, registry %q", k.ElementID, e.FieldID, e.Name, g.Name))
+		case int(e.Type) != r.typeOf[g.Type]:
+			bad = append(bad, fmt.Sprintf("element %d (%s) has type %s, registry %s", k.ElementID, g.Name, typeNameOf(e.Type), g.Type))
+		}
+	}
+	if len(bad) > 0 {
+		sort.Strings(bad)
+		if len(bad) > 4 {
+			bad = append(bad[:4], fmt.Sprintf("... and %d more", len(bad)-4))
+		}
+		return fmt.Errorf("the live information model no longer matches the registry snapshot: %v", bad)
+	}
+	return nil
+}
+
+func (r *c20Rig) run(h *c20History) (v verdict, sig string, err error) {
+	kinds := map[string]bool{}
+	for i, op := range h.Ops {
+		kinds[op.Op] = true
+		v.label(true, "op-"+op.Op)
+		switch op.Op {
+		case "nf9", "ipfix":
+			if op.Sc == nil || op.Sc.Main.Proto != op.Op {
+				return v, "", fmt.Errorf("bad case: scenario of op %d", i)
+			}
+			if _, s, e := runScenarioDecode(op.Sc); e != nil {
+				return v, "decode-" + s, fmt.Errorf("operation %d (%s scenario, expected records computed with the registry's types): %v", i, op.Op, e)
+			}
+		case "sflow":
+			if _, _, perr := decodeSFlow(op.Raw, nil); perr != nil {
+				return v, "panic", fmt.Errorf("operation %d: %v", i, perr)
+			}
+		case "nf5":
+			func() {
+				defer func() { recover() }()
+				netflow5.NewDecoder([]byte{127, 0, 0, 1}, op.Raw).Decode()
+			}()
+		case "load-file":
+			if e := ipfix.LoadExtElements(r.fileDir); e != nil {
+				return v, "load", fmt.Errorf("operation %d: LoadExtElements on the shipped file: %v", i, e)
+			}
+		case "load-absent":
+			if e := ipfix.LoadExtElements(r.emptyDir); e != nil {
+				return v, "load", fmt.Errorf("operation %d: LoadExtElements without a file: %v", i, e)
+			}
+		default:
+			return v, "", fmt.Errorf("bad case: op %q", op.Op)
+		}
+		if e := r.modelIntact(); e != nil {
+			return v, "model-changed", fmt.Errorf("after operation %d (%s): %v", i, op.Op, e)
+		}
+	}
+	v.NT = len(kinds) >= 2
+	v.label(true, "phase3-history")
+	return v, "", nil
+}
+
+func TestC20History(t *testing.T) {
+	col := getCollector("C20", "")
+	col.Rule += c20HistoryRule
+	rig, err := newC20Rig()
+	if err != nil {
+		t.Fatal(err)
+	}
+	defer rig.cleanup()
+	elems := rig.goldenElems()
+	envs := map[string]*wire.GenEnv{"ipfix": wire.NewGenEnvFrom("ipfix", elems), "nf9": wire.NewGenEnvFrom("nf9", elems)}
+	// The information model is process-wide state: once a history has damaged it, every later case in this process
+	// (rapid's shrinking attempts included) starts from the damaged model. The first failing history is therefore kept
+	// as the replay case (it reproduces in a fresh process) and later cases only repeat its report.
+	var first error
+	rapid.Check(t, func(t *rapid.T) {
+		if first != nil {
+			t.Fatalf("property C20 violated by an earlier history of this process (the model stays damaged): %v", first)
+		}
+		h := c20History{Phase: 3}
+		n := rapid.IntRange(1, 8).Draw(t, "nops")
+		for i := 0; i < n; i++ {
+			op := c20Op{Op: rapid.SampledFrom([]string{"nf9", "ipfix", "nf9", "ipfix", "sflow", "nf5", "load-file", "load-absent"}).Draw(t, "op")}
+			switch op.Op {
+			case "nf9", "ipfix":
+				sc := envs[op.Op].GenScenario(t, 2, 3)
+				op.Sc = &sc
+			case "sflow":
+				d := wire.GenSFDatagram(t)
+				op.Raw = d.Bytes()
+			case "nf5":
+				pk := wire.GenNF5(t)
+				op.Raw = pk.Bytes()
+			}
+			h.Ops = append(h.Ops, op)
+		}
+		v, sig, err := rig.run(&h)
+		if err != nil {
+			first = err
+		}
+		col.report(t, mustJSON(h), v, sig, err)
+	})
+}
+
 func init() {
 	registerReplay("C20", func(raw json.RawMessage) error {
-		return fmt.Errorf("C20 cases are (element) keys; re-run ./check C20 quick (the enumeration is exhaustive and takes seconds)")
+		var h c20History
+		if err := json.Unmarshal(raw, &h); err != nil || h.Phase != 3 {
+			return fmt.Errorf("C20 phase 1/2 cases are (element) keys; re-run ./check C20 quick (the enumeration is exhaustive and takes seconds)")
+		}
+		rig, err := newC20Rig()
+		if err != nil {
+			return err
+		}
+		defer rig.cleanup()
+		_, _, err = rig.run(&h)
+		return err
 	})
 }
